@@ -352,10 +352,10 @@ CHECK = Check(
     P, 'exploration',
     rule=('vectorize: arity 1-4, every input a scalar / numpy scalar / 0-d array / batch array (batch,) or (batch,2) / opaque object / dict / '
           'list / array declared constant by the mask, explicit or auto-detected constant mask (list or tuple), keyword pass-through, '
-          'batch_size absent / right / wrong, dtype None/float/int/False, operations returning scalars, arrays, tuples or ragged lists, '
+          'batch_size absent / right / wrong, dtype None/float/int/False, operations returning scalars, values whose Python type differs between rows (int / float), arrays, tuples or ragged lists, '
           'and 1-3 successive calls on the SAME vectorised object; oracle = explicit per-row loop with identity checks. external: '
           'echo/printf templates over positional, keyword, seed, batch_size, index_in_batch and meta fields with separators and result '
-          'dtypes; direct, vectorised and inside a model. Non-trivial: mixed constant/batched inputs with batch >= 2; external with '
+          'dtypes given as strings or np.dtype instances, 64-bit integer values; direct, vectorised and inside a model. Non-trivial: mixed constant/batched inputs with batch >= 2; external with '
           'batch >= 2.'),
     parts=[Part('vectorize', run_vectorize, strategy=strat_vectorize, examples={'quick': 1500, 'thorough': 64000}),
            Part('external', run_external, strategy=strat_external, examples={'quick': 320, 'thorough': 4800})],
